@@ -164,7 +164,8 @@ EXTRA5 = {
         'reply counts: exactly one reply for unknown / wrong-arity / queued / refused / executed commands, one per argument for (P)SUBSCRIBE, max(1, subscriptions) for an empty (P)UNSUBSCRIBE, 0 or 1 for a blocking pop; '
         'subscribe_in_multi_refused, exec_after_refusal_aborts; the chunking theorems without aliveness hypotheses on reachable states. Bridge: notInMulti_eq (the refused list is extracted from _process_command). '
         'Reply ORDER (FR.Props.C04o, 34 theorems): processCommand / drain / sendall / every wake-up, time-out and event only ever PREPEND to the output (processCommand_out_suffix …, unconditional); replies_in_request_order: for a pipelined write of n requests that do not park, the replies of the connection are the per-request '
-        'own-reply lists concatenated in request order; n_requests_n_replies: n plain requests (anything but pub/sub commands, parking pops and the empty request) get exactly n replies, the i-th being the answer to the i-th request computed in the state after the first i-1 (pub/sub pushes to the own connection are accounted for exactly). ',
+        'own-reply lists concatenated in request order; n_requests_n_replies: n plain requests (anything but pub/sub commands, parking pops and the empty request) get exactly n replies, the i-th being the answer to the i-th request computed in the state after the first i-1 (pub/sub pushes to the own connection are accounted for exactly). FR.Props.C04q (21 theorems): on the synchronous front-end no request ever pauses any connection (sync_never_pauses, through every special body, EXEC and scripts), so replies_in_request_order_sync and n_requests_n_replies_sync hold with no '
+        'hypothesis on parking; publish_not_listed (a connection in no subscriber list receives nothing from PUBLISH). ',
  'C05': 'Round 5: refused_in_multi(_eq) - the four pub/sub commands inside MULTI are answered with the fixed error, poison the transaction and queue nothing; db matrix also in C05 (fresh databases created inside EXEC carry the clock). ',
  'C08': 'Round 5, tie (a) for the modelling decision "an error carries no state": tools/gen_purity.py runs a forward abstract interpretation over the AST of all 139 command bodies on every check (no raise / raising call can execute after the body changed a CommandItem, a stored container, '
         'the database, the server or the connection; loops twice, try/handler states, lazily consumed generators) and Bridge/Purity proves purity_bodies_validate_first (empty for every command except EXEC and EVAL, whose errors are specified to follow a change) and purity_covers_all_commands. ',
